@@ -5,17 +5,22 @@
 (* with explicit settings from Choices or with none (defaults), at most    *)
 (* Reconfig configuration updates, queue path / Append calls / one         *)
 (* SendDirect call, a client that keeps or consumes each pack, a stop      *)
-(* request at any moment; every interleaving of the producer, the worker's *)
-(* steps, the direct caller, the stop request and configuration updates.   *)
-(* A record of size n with id i is the byte string <<i, i, ..., i>>.       *)
+(* request at any moment (through every way the creation allows); every    *)
+(* interleaving of the producer, the worker's steps, the direct caller,    *)
+(* the stop request, configuration updates and the reference clock.        *)
+(* A record of size n with id i is the byte string <<i, i, ..., i>>; with  *)
+(* Bad, records that cannot be encoded are offered too.                    *)
 (***************************************************************************)
 EXTENDS ZipSender, TLC
 
 CONSTANTS Modes, NRec, Sizes, Times, MaxBufs, MaxWaits, ZipMins, QCaps, Keeps, MaxDirect, Reconfig,
           EarlyFlush,     \* TRUE: an append may flush although no limit is reached (the property does not forbid it)
-          WithDefaults    \* TRUE: creation without settings is explored too
+          WithDefaults,   \* TRUE: creation without settings is explored too
+          Bad,            \* TRUE: records that cannot be encoded are offered as well
+          CtxKinds        \* what the creator passes as context: subset of {"none", "ctx", "both"}
 
-VARIABLE ncfg    \* configuration updates so far (at most Reconfig)
+VARIABLES ncfg,   \* configuration updates so far (at most Reconfig)
+          nid     \* the next record id
 
 Choices == {[maxBuf |-> b, maxWait |-> w, zipMin |-> z, qCap |-> q] :
               b \in MaxBufs, w \in MaxWaits, z \in ZipMins, q \in QCaps}
@@ -23,37 +28,45 @@ Choices == {[maxBuf |-> b, maxWait |-> w, zipMin |-> z, qCap |-> q] :
 \* configuration updates: every subset of the settings named, values from the choices
 Updates == UNION {[ks -> MaxBufs] : ks \in SUBSET {"maxBuf", "zipMin"}}
 
-NextId == Len(accB) + Len(accD) + Cardinality(refused) + 1
-NewRec(i, sz, t) == [id |-> i, time |-> t, bytes |-> [j \in 1..sz |-> i]]
+NextId == nid
+NewRec(i, sz, t) == IF sz < 0 THEN [id |-> i, time |-> t, bytes |-> <<>>, ok |-> FALSE]     \* cannot be encoded
+                    ELSE [id |-> i, time |-> t, bytes |-> [j \in 1..sz |-> i], ok |-> TRUE]
+AllSizes == Sizes \cup (IF Bad THEN {-1} ELSE {})
 
 \* argument lists of a SendDirect call: 0..MaxDirect fresh records
 MinTime == CHOOSE t \in Times : \A u \in Times : t <= u
 RECURSIVE Batches(_, _)
 Batches(i, n) == IF n = 0 THEN {<<>>}
-                 ELSE {<<>>} \cup {<<NewRec(i, sz, MinTime)>> \o rest : sz \in Sizes, rest \in Batches(i + 1, n - 1)}
+                 ELSE {<<>>} \cup {<<NewRec(i, sz, MinTime)>> \o rest : sz \in AllSizes, rest \in Batches(i + 1, n - 1)}
 
 \* the flush decision: the design flushes exactly when a limit is reached
 AppendDue == LET r == live[Len(live)] IN MustFlush(blen, IF firstTime = 0 THEN r.time ELSE firstTime, r)
 Fl == IF EarlyFlush THEN BOOLEAN ELSE {AppendDue}
 
 MCStep ==
-  \/ \E m \in Modes : (WithDefaults /\ New(m, FALSE, Defaults)) \/ \E c \in Choices : New(m, TRUE, c)
-  \/ \E sz \in Sizes, t \in Times :
-        NextId <= NRec /\ (Add(NewRec(NextId, sz, t)) \/ AppendCall(NewRec(NextId, sz, t)))
-  \/ \E rs \in Batches(NextId, MaxDirect) : MaxDirect > 0 /\ drid = 0 /\ NextId + Len(rs) <= NRec + 1 /\ DirectBegin(rs)
-  \/ \E saw \in BOOLEAN : WTop(saw, stopped)
-  \/ WTake \/ WIdle \/ WAppend \/ WReset \/ WExit
-  \/ wpc = "dec" /\ \E fl \in Fl : WDecide(fl)
-  \/ \E k \in Keeps : WSend(k) \/ DSend(k)
-  \/ DirectEnd
-  \/ StopCall \/ StopRet
+  \/ /\ \E m \in Modes, ck \in CtxKinds : (WithDefaults /\ New(m, FALSE, Defaults, ck)) \/ \E c \in Choices : New(m, TRUE, c, ck)
+     /\ UNCHANGED nid
+  \/ /\ \E sz \in AllSizes, t \in Times :
+          NextId <= NRec /\ (Add(NewRec(NextId, sz, t)) \/ AppendCall(NewRec(NextId, sz, t)))
+     /\ nid' = nid + 1
+  \/ \E rs \in Batches(NextId, MaxDirect) :
+        MaxDirect > 0 /\ drid = 0 /\ NextId + Len(rs) <= NRec + 1 /\ DirectBegin(rs) /\ nid' = nid + Len(rs)
+  \/ /\ \/ \E saw \in BOOLEAN : WTop(saw, stopped)
+        \/ WTake \/ WIdle \/ WAppend \/ WRefuse \/ WReset \/ WExit
+        \/ wpc = "dec" /\ \E fl \in Fl : WDecide(fl)
+        \/ \E k \in Keeps : WSend(k) \/ DSend(k)
+        \/ DirectEnd \/ DirectAbort
+        \/ \E via \in {"own", "given", "parent"} : StopCall(via)
+        \/ StopRet
+        \/ IdleSlack > 0 /\ Waiting /\ Tick(RefPeriod)
+     /\ UNCHANGED nid
 
 MCNext ==
   \/ MCStep /\ UNCHANGED ncfg
-  \/ \E g \in Updates : ncfg < Reconfig /\ Resolve(g) # settings /\ ApplyConfig(g) /\ ncfg' = ncfg + 1
+  \/ \E g \in Updates : ncfg < Reconfig /\ Resolve(g) # settings /\ ApplyConfig(g) /\ ncfg' = ncfg + 1 /\ UNCHANGED nid
 
-MCInit == Init /\ ncfg = 0
-MCSpec == MCInit /\ [][MCNext]_<<vars, ncfg>>
+MCInit == Init /\ ncfg = 0 /\ nid = 1
+MCSpec == MCInit /\ [][MCNext]_<<vars, ncfg, nid>>
 
-FlushWhenDue == [][FlushWhenDueStep]_<<vars, ncfg>>
+FlushWhenDue == [][FlushWhenDueStep]_<<vars, ncfg, nid>>
 =============================================================================
